@@ -3,7 +3,10 @@ use super::core::*;
 use super::queue_state::*;
 use super::job_queue::*;
 
+#[cfg(not(logicalshift_desync_verif))]
 use std::sync::*;
+#[cfg(logicalshift_desync_verif)]
+use desync_verif_rt::sync::*;
 use futures::task::{ArcWake};
 
 ///
